@@ -16,7 +16,8 @@ class Bin:
 
 class Job:
     def __init__(self, name, bin, quick, thorough, args=(), env=None, thorough_only=False,
-                 timeout_quick=900, timeout_thorough=3600, build_failure_is_violation=False):
+                 timeout_quick=900, timeout_thorough=3600, build_failure_is_violation=False, probe_only=False):
+        self.probe_only = probe_only    # no campaign: only used to replay the probe case of a known finding
         self.name = name
         self.bin = bin
         self.quick = quick          # (processes, cases per process, max size)
@@ -193,3 +194,25 @@ PROPS["C10"] = Meta(
          "definitions, argument checks on real and virtual levels, reported repetition counts consistent; non-trivial = extra levels >= 1 and a particle in a boundary leaf",
     assumptions=SCHED_ASSUME,
 )
+
+
+def index(dim, ord_):
+    return Bin("t_index_d%d_%s" % (dim, ["morton", "pmorton", "hilbert"][ord_]), ["props/t_index.cpp"], {"DIM": dim, "ORD": ord_})
+
+
+_c11 = []
+for _d in (1, 2, 3, 4):
+    for _o in (0, 1):
+        _n = "%s-d%d" % (["morton", "pmorton"][_o], _d)
+        _c11.append(Job(_n + "-exh", index(_d, _o), quick=(1, 1, 1), thorough=(1, 1, 1), args=["--mode", "exhaustive"]))
+        _c11.append(Job(_n, index(_d, _o), quick=(1, 400, 100), thorough=(8, 4000, 100)))
+_c11.append(Job("hilbert-d3-exh", index(3, 2), quick=(1, 1, 1), thorough=(1, 1, 1), args=["--mode", "exhaustive"]))
+_c11.append(Job("hilbert-d3", index(3, 2), quick=(1, 400, 100), thorough=(8, 4000, 100)))
+_c11.append(Job("hilbert-d3-cross", index(3, 2), quick=(0, 0, 0), thorough=(0, 0, 0), args=["--cross", "1"], probe_only=True))
+PROPS["C11"] = Meta(_c11,
+    "exhaustive: every cell of every level of a tree of height 7/5/4/3 (Dim 1..4) per ordering; random: rapidcheck-generated (height, list of cells) up to 60-bit indices "
+    "(heights <= 31: see known finding F-DEEP-LEVEL); per cell: coordinate<->index bijection against the definitional Morton interleave, parent/child/octant code, interaction and neighbour "
+    "lists equal to the definitional sets (clipped or wrapped), upper-half filter keeps exactly one direction of each adjacent pair; per generated group of cells: block builders = union of the "
+    "per-cell definitions split by the group's index range, with both filter flags, position codes; whole code range encode/decode; Hilbert(3-D): same within one level, relations across "
+    "levels excluded (known finding F-HILBERT, probed); non-trivial = a case containing a cell of level >= 2 (interior: full lists, boundary: clipped lists)",
+    ["the definitional lists of harness/model/refmodel.hpp", "for the Hilbert ordering no independent definition of the curve exists: coordinates<->index is checked as a bijection and lists are compared in coordinates"])
